@@ -147,6 +147,7 @@ inductive Op
   | uvPipe | uvSocketpair
   | fsOpen (variant : String) | fsMkstemp | fsClose (f : Nat) | fsCopyfile (variant : String)
   | flood (h n : Nat) | util
+  | fork                                          -- fork(); the child calls uv_loop_fork and carries on
   | sockopt (h : Nat) (keepalive : Bool)          -- uv_tcp_nodelay(h, 1) / uv_tcp_keepalive(h, 1, 60)
   | ipcSend (f h : Nat) (kinds : List HKind)
   | spawn (ok : Bool) (cs : List Cont)
@@ -395,6 +396,50 @@ def loopInitTail (s : St) (inj : Inj) : St :=
                   .closeOwner (.loop .ring) false, .closeOwner (.loop .backend) false]) false
     | none => ret { (s.tick inj "eventfd").run [.create .eventfd .evfd (.loop .async)] with loopOk := true } true
 
+/-! ### fork(): the child keeps every descriptor; uv_loop_fork re-creates the kernel objects that must not be shared -/
+
+/-- uv__signal_loop_fork (signal.c:283-307) -/
+def forkSignal (s : St) (inj : Inj) : St :=
+  let s := s.run [.closeOwner (.loop .sig0) false, .closeOwner (.loop .sig1) false]
+  match s.fails inj "pipe2" with
+  | some _ => ret (s.tick inj "pipe2") false
+  | none => ret ((s.tick inj "pipe2").run [.create .pipe2 .pipe (.loop .sig0), .create .pipe2 .pipe (.loop .sig1)]) true
+
+/-- uv__async_fork (async.c:360-397), then the signal pipe -/
+def forkAsync (s : St) (inj : Inj) : St :=
+  let s := s.run [.closeOwner (.loop .async) false]
+  match s.fails inj "eventfd" with
+  | some _ => ret (s.tick inj "eventfd") false
+  | none => forkSignal ((s.tick inj "eventfd").run [.create .eventfd .evfd (.loop .async)]) inj
+
+/-- a started uv_fs_event_t exists: uv__inotify_fork restarts it, which re-creates the inotify descriptor -/
+def hasWatchers (s : St) : Bool := s.hs.any (fun h => h.kind = .fsev && h.st = .live && h.bound)
+
+/-- uv__io_fork (linux.c:658-676): the inherited epoll descriptor is CLOSED, rings and inotify deleted, then
+    uv__platform_loop_init and uv__inotify_fork; then the wake-up descriptor and the signal pipe -/
+def forkIo (s : St) (inj : Inj) : St :=
+  let s := s.run [.closeOwner (.loop .backend) false, .closeOwner (.loop .ring) false, .closeOwner (.loop .inotify) false]
+  match s.fails inj "epoll_create1" with
+  | some _ => ret (s.tick inj "epoll_create1") false
+  | none =>
+    let s := loopInitRing ((s.tick inj "epoll_create1").run [.create .epollCreate .epoll (.loop .backend)]) inj
+    if hasWatchers s then
+      match s.fails inj "inotify_init1" with
+      | some _ => ret (s.tick inj "inotify_init1") false
+      | none => forkAsync ((s.tick inj "inotify_init1").run [.create .inotifyInit .inot (.loop .inotify)]) inj
+    else forkAsync s inj
+
+/-- the pthread_atfork child handler uv__signal_global_reinit (signal.c:66-112): the lock pipe is replaced -/
+def forkLock (s : St) (inj : Inj) : St :=
+  if s.lockDone then
+    ((s.run [.closeOwner (.glob 0) false, .closeOwner (.glob 1) false]).tick inj "pipe2").run
+      [.create .pipe2 .pipe (.glob 0), .create .pipe2 .pipe (.glob 1)]
+  else s
+
+def opFork (s : St) (inj : Inj) : St :=
+  let s := forkLock s inj
+  if s.loopOk then forkIo s inj else ret s true
+
 def opLoopInit (s : St) (inj : Inj) : St :=
   if s.loopOk then bad s else
   -- uv__platform_loop_init (linux.c:640-657)
@@ -471,7 +516,8 @@ def opPollInit (s : St) (f : Nat) : St :=
     else ret (s.newH { kind := .poll }) true
 
 def opFsEventStart (s : St) (inj : Inj) (ok : Bool) : St :=
-  let s := s.newH { kind := .fsev }
+  -- `bound`: the watch was added (uv_fs_event_start succeeded)
+  let s := s.newH { kind := .fsev, bound := ok && (s.has (.loop .inotify) || (s.fails inj "inotify_init1").isNone) }
   if s.has (.loop .inotify) then ret s ok else
   match s.fails inj "inotify_init1" with
   | some _ => ret (s.tick inj "inotify_init1") false
@@ -670,6 +716,7 @@ def step (s : St) (inj : Inj) (op : Op) : St :=
   | .uvPipe => opUvPipe s inj
   | .uvSocketpair => opUvSocketpair s inj
   | .end_ => ret (s.run [.userCloseAll]) true
+  | .fork => opFork s inj
   | op =>
     if !s.loopOk then bad s else
     match op with
